@@ -275,6 +275,10 @@ class Wsdl11(XmlSchema):
                                                               service_name, url)
         applied_service_name = self._get_applied_service_name(service)
 
+        # wsdl:message elements always live in the target namespace of the
+        # wsdl:definitions element, whatever the namespace of their parts is.
+        pref_tns = self.interface.get_namespace_prefix(self.interface.get_tns())
+
         port_binding_names = []
         port_type_list = service.get_port_types()
         if len(port_type_list) > 0:
@@ -309,14 +313,14 @@ class Wsdl11(XmlSchema):
 
             op_input = SubElement(operation, WSDL11("input"))
             op_input.set('name', method.in_message.get_element_name())
-            op_input.set('message',
-                          method.in_message.get_element_name_ns(self.interface))
+            op_input.set('message', '%s:%s' % (pref_tns,
+                                         method.in_message.get_element_name()))
 
             if (not method.is_callback) and (not method.is_async):
                 op_output = SubElement(operation, WSDL11("output"))
                 op_output.set('name', method.out_message.get_element_name())
-                op_output.set('message', method.out_message.get_element_name_ns(
-                                                                self.interface))
+                op_output.set('message', '%s:%s' % (pref_tns,
+                                        method.out_message.get_element_name()))
 
                 if not (method.faults is None):
                     for f in method.faults:
@@ -418,9 +422,8 @@ class Wsdl11(XmlSchema):
                 for header in in_headers:
                     soap_header = SubElement(input, input_binding_ns('header'))
                     soap_header.set('use', 'literal')
-                    soap_header.set('message', '%s:%s' % (
-                                header.get_namespace_prefix(self.interface),
-                                in_header_message_name))
+                    soap_header.set('message', '%s:%s' % (pref_tns,
+                                                        in_header_message_name))
                     soap_header.set('part', header.get_type_name())
 
             if not (method.is_async or method.is_callback):
@@ -450,9 +453,8 @@ class Wsdl11(XmlSchema):
                     for header in out_headers:
                         soap_header = SubElement(output, output_binding_ns("header"))
                         soap_header.set('use', 'literal')
-                        soap_header.set('message', '%s:%s' % (
-                                header.get_namespace_prefix(self.interface),
-                                out_header_message_name))
+                        soap_header.set('message', '%s:%s' % (pref_tns,
+                                                       out_header_message_name))
                         soap_header.set('part', header.get_type_name())
 
                 if not (method.faults is None):
